@@ -514,11 +514,27 @@ pub fn check_c05(cx: &C05Ctx, out: &mut Outcome) {
                             })
                             .count();
                         if maybe_open < limit as usize {
+                            // which history: a stream that had certainly closed before the refused HEADERS arrived (ended
+                            // by END_STREAM both ways, or reset by the peer) and for which the endpoint nevertheless wrote
+                            // an RST_STREAM of its own afterwards (it owed one because the application had let go of the
+                            // stream early) held the slot
+                            let hd = w.frames_d[p].first().copied().unwrap_or(u64::MAX);
+                            let owed: Vec<u32> = ws
+                                .iter()
+                                .filter(|(s2, w2)| **s2 < *s && w2.opened_by == Some(e.other()))
+                                .filter(|(_, w2)| {
+                                    let ended_both = w2.end[p].map(|x| x.0 <= h_t_w).unwrap_or(false) && w2.end[i].map(|x| x.0 < hd).unwrap_or(false);
+                                    let peer_reset = w2.rst[p].iter().any(|r| r.0 <= h_t_w);
+                                    (ended_both || peer_reset) && !w2.rst[i].iter().any(|r| r.0 < hd) && w2.rst[i].iter().any(|r| r.0 >= hd)
+                                })
+                                .map(|(s2, _)| *s2)
+                                .collect();
+                            let sig = if owed.is_empty() { "C05/refuses-although-slots-are-free".to_string() } else { "C05/refuses-although-slots-are-free/slot-held-by-closed-stream-still-owed-a-reset".to_string() };
                             out.fail(
                                 "C05",
                                 "concurrency/recycling",
-                                "C05/refuses-although-slots-are-free",
-                                format!("server refused stream {} although at most {} earlier streams could still be open; advertised limit {}", s, maybe_open, limit),
+                                sig,
+                                format!("server refused stream {} although at most {} earlier streams could still be open; advertised limit {}{}", s, maybe_open, limit, if owed.is_empty() { String::new() } else { format!(" (streams {:?} had ended — END_STREAM both ways or reset by the peer — but were still owed an RST_STREAM by the endpoint)", owed) }),
                             );
                         }
                     }
@@ -557,7 +573,9 @@ pub fn check_c07(cx: &C07Ctx, out: &mut Outcome) {
             _ => "they stay pending even when re-polled",
         };
         let only_send_waiters = kinds.iter().any(|k| matches!(k.as_str(), "c-body" | "c-second" | "c-resetwatch")); // (others pending are downstream of it)
-        let sig = if cx.two_send_waiters && only_send_waiters && cx.completed_when_repolled == Some(true) {
+        // (whether the rest then completes under generous polling does not matter: a program of this shape that also
+        // watches poll_reset runs into the second recorded finding once the first wake-up has been made up for)
+        let sig = if cx.two_send_waiters && only_send_waiters {
             "C07/two-waiters-share-the-stream-send-task-slot".to_string()
         } else {
             format!("C07/hang-after-{}/{}", cx.ending, kinds.join("+"))
@@ -612,7 +630,9 @@ pub fn check_c03(cx: &C03Ctx, out: &mut Outcome) {
         }
         let target_at = |t: u64| targets.iter().rev().find(|x| x.0 <= t).map(|x| x.1).unwrap_or(cx.conn_target[i] as i64);
         let target_changes: Vec<u64> = targets.iter().skip(1).map(|x| x.0).collect();
-        let conn_done_at = cx.events.iter().find(|ev| ev.side == e && matches!(&ev.api, Api::ConnDone { .. })).map(|ev| ev.step);
+        // (a connection object the program dropped is as gone as one that completed: frames it had composed but not
+        // yet written are lost with it)
+        let conn_done_at = cx.events.iter().find(|ev| ev.side == e && (matches!(&ev.api, Api::ConnDone { .. }) || matches!(&ev.api, Api::ConnOp { op } if op.starts_with("drop(Connection)")))).map(|ev| ev.step);
         // ---- (1) conservation: available + in-flight == target at every sample of the live connection
         // (not within a few steps of a target change: the call and the sample are not atomic)
         let mut checked = 0;
@@ -740,10 +760,13 @@ pub fn check_c03(cx: &C03Ctx, out: &mut Outcome) {
                 continue;
             }
             if st.recv_in_flight as i64 > held {
+                // which history: DATA of pushed streams the application never claimed (promise or response never taken)
+                let pushed_unclaimed: i64 = delivered_c.iter().filter(|(s, _)| **s % 2 == 0 && !surfaced.contains(*s)).map(|(_, d)| at(d, *t)).sum();
+                let sig = if e == Side::Client && pushed_unclaimed > 0 && st.recv_in_flight as i64 - held <= pushed_unclaimed { "C03/data-of-unclaimed-pushed-stream-never-credited-back" } else { "C03/discarded-data-not-credited-back" };
                 out.fail(
                     "C03",
                     "conservation/in-flight-held-by-nobody",
-                    "C03/discarded-data-not-credited-back",
+                    sig,
                     format!("{} at step {}: {} bytes are counted as in flight, but the application holds at most {} unreleased bytes on streams it still reads (data discarded for dropped/reset/finished streams must be credited back when discarded)", e.name(), t, st.recv_in_flight, held),
                 );
                 break;
